@@ -168,10 +168,18 @@ def gen_arith(c):
             put({"op": "point_sub", "P": o1(P1), "Q": o1(P2)}, grp="g1", **ptcase(P1, R.g1_neg(P2)))
             if P1 is not None:
                 put({"op": "point_add_jac", "P": o1(P1), "Q": o1(P2)}, grp="g1", **ptcase(R.g1_dbl(P1), P2))
+            # the same operands held as other Jacobian representatives (X l^2, Y l^3, Z l): equal and opposite points are then not equal coordinate-wise
+            for lp, lq in ((True, False), (False, True), (True, True)):
+                lam = {k: i2b(rng.randrange(2, p)) for k, on in (("lamP", lp), ("lamQ", lq)) if on}
+                put(dict({"op": "point_add", "P": o1(P1), "Q": o1(P2)}, **lam), grp="g1", **ptcase(P1, P2))
+                put(dict({"op": "point_sub", "P": o1(P1), "Q": o1(P2)}, **lam), grp="g1", **ptcase(P1, R.g1_neg(P2)))
         if P1:
             put({"op": "point_is_on_curve", "P": o1(P1)}, grp="g1", expectbool=True)
             put({"op": "point_equ", "P": o1(P1), "Q": o1(P1)}, grp="g1", expectbool=True)
             put({"op": "point_equ", "P": o1(P1), "Q": o1(R.g1_neg(P1))}, grp="g1", expectbool=False)
+            put({"op": "point_equ", "P": o1(P1), "Q": o1(P1), "lamP": i2b(rng.randrange(2, p))}, grp="g1", expectbool=True)
+            put({"op": "point_equ", "P": o1(P1), "Q": o1(P1), "lamP": i2b(rng.randrange(2, p)), "lamQ": i2b(rng.randrange(2, p))}, grp="g1", expectbool=True)
+            put({"op": "point_dbl", "P": o1(P1), "lamP": i2b(rng.randrange(2, p))}, grp="g1", **ptcase(P1, P1))
             bad = b"\x04" + i2b(P1[0]) + i2b((P1[1] + 1) % p)
             put({"op": "point_from_octets", "a": bad}, grp="g1", expectbool=False)
             put({"op": "point_from_octets", "a": o1(P1)}, grp="g1", expectbool=True)
@@ -205,10 +213,18 @@ def gen_arith(c):
             put({"op": "twist_add_full", "P": o2(Q1), "Q": o2(Q2)}, grp="g2", **exp2(s))
             put({"op": "twist_add", "P": o2(Q1), "Q": o2(Q2)}, grp="g2", **exp2(s))
             put({"op": "twist_sub", "P": o2(Q1), "Q": o2(Q2)}, grp="g2", **exp2(R.g2_add(Q1, R.g2_neg(Q2))))
+            # other Jacobian representatives (twist_add / twist_sub are mixed additions: only their first operand may be one)
+            l2 = lambda: R.fp2_to_bytes((rng.randrange(1, p), rng.randrange(0, p)))
+            put({"op": "twist_add", "P": o2(Q1), "Q": o2(Q2), "lamP": l2()}, grp="g2", **exp2(s))
+            put({"op": "twist_sub", "P": o2(Q1), "Q": o2(Q2), "lamP": l2()}, grp="g2", **exp2(R.g2_add(Q1, R.g2_neg(Q2))))
+            for lam in ({"lamP": l2()}, {"lamQ": l2()}, {"lamP": l2(), "lamQ": l2()}):
+                put(dict({"op": "twist_add_full", "P": o2(Q1), "Q": o2(Q2)}, **lam), grp="g2", **exp2(s))
         if Q1:
             put({"op": "twist_is_on_curve", "P": o2(Q1)}, grp="g2", expectbool=True)
             put({"op": "twist_equ", "P": o2(Q1), "Q": o2(Q1)}, grp="g2", expectbool=True)
             put({"op": "twist_equ", "P": o2(Q1), "Q": o2(R.g2_neg(Q1))}, grp="g2", expectbool=False)
+            put({"op": "twist_equ", "P": o2(Q1), "Q": o2(Q1), "lamP": R.fp2_to_bytes((rng.randrange(1, p), rng.randrange(0, p)))}, grp="g2", expectbool=True)
+            put({"op": "twist_dbl", "P": o2(Q1), "lamP": R.fp2_to_bytes((rng.randrange(1, p), rng.randrange(0, p)))}, grp="g2", **exp2(R.g2_dbl(Q1)))
             x, y = Q1
             put({"op": "twist_from_octets", "a": b"\x04" + R.fp2_to_bytes(x) + R.fp2_to_bytes(((y[0] + 1) % p, y[1]))}, grp="g2", expectbool=False)
             put({"op": "twist_from_octets", "a": o2(Q1)}, grp="g2", expectbool=True)
@@ -244,7 +260,7 @@ def run_arith(c):
     res = CL.run_script(*DRV, lines, tag="c17a", procs=14)
     jc, meta = [], []
     for (line, evs, san), case in zip(res, cases):
-        key = "c17:%s:%s" % (case["op"], ":".join(shortv(line.get(k, "")) for k in ("a", "b", "k", "P", "Q", "ident", "hid") if line.get(k, "") not in ("", "-")))
+        key = "c17:%s:%s" % (case["op"], ":".join(shortv(line.get(k, "")) for k in ("a", "b", "k", "P", "Q", "lamP", "lamQ", "ident", "hid") if line.get(k, "") not in ("", "-")))
         c.count(1, key)
         if san or not evs:
             c.violation(key[:160] + ":crash", "driver died / sanitizer report: %s" % san, {"line": {k: str(v)[:200] for k, v in line.items()}})
